@@ -77,6 +77,15 @@ func mkSetter(f []int, bufs *[][]byte) stun.Setter {
 	case 2:
 		var tid [12]byte
 		copy(tid[:], bytesOf(f[1:]))
+		if tid[0]%3 == 1 {
+			// the same setter in its other form: a Message used as a Setter hands on its TransactionID FIELD - here a
+			// template whose field was reassigned after its header had been written with another ID
+			src := new(stun.Message)
+			src.TransactionID = [12]byte{0xA5, 0x5A, tid[0], 0xFF, 1, 2, 3, 4, 5, 6, 7, 8}
+			src.WriteHeader()
+			src.TransactionID = tid
+			return src
+		}
 		return stun.NewTransactionIDSetter(tid)
 	case 3:
 		return stun.RawAttribute{Type: stun.AttrType(f[1]), Value: own(f[2:])}
@@ -342,12 +351,26 @@ func execHistory(o *out, f [][]int) []int {
 			run = func() { m.Add(stun.AttrType(opf[1]), v) }
 			keepsSync = true
 		case 5:
-			run = func() { m.SetType(stun.NewType(stun.Method(opf[1]), stun.MessageClass(opf[2]))) }
+			// (every third time the caller has already assigned the field it is about to set: the writer still writes)
+			preset := (opf[1]+opf[2]+i)%3 == 0
+			run = func() {
+				t := stun.NewType(stun.Method(opf[1]), stun.MessageClass(opf[2]))
+				if preset {
+					m.Type = t
+				}
+				m.SetType(t)
+			}
 			keepsSync = true
 		case 6:
 			var tid [12]byte
 			copy(tid[:], bytesOf(opf[1:]))
-			run = func() { err = stun.NewTransactionIDSetter(tid).AddTo(m) }
+			preset := (int(tid[1])+i)%3 == 0
+			run = func() {
+				if preset {
+					m.TransactionID = tid
+				}
+				err = stun.NewTransactionIDSetter(tid).AddTo(m)
+			}
 			keepsSync = true
 		case 7:
 			s := mkSetter(opf[1:], &bufs)
